@@ -11,6 +11,7 @@ CONSTANTS
   Addl <- MCAddl
   Ops <- MCOps
   MaxWord = 0
+  Letters = {"n", "b"}
 INVARIANT TypeOK
 INVARIANT Inv
 PROPERTY StepProp
